@@ -204,7 +204,7 @@ fn ref_step(metric: Metric, prev: &KState, batch: &[Vec<f64>]) -> Option<(Vec<Re
         tie_sets.push((0..k).filter(|&c| d[c] <= dmin + 1e-12 * (1.0 + dmin)).collect());
     }
     inertia /= batch.len() as f64;
-    let combos: usize = tie_sets.iter().map(|t| t.len()).product();
+    let combos: usize = tie_sets.iter().fold(1usize, |acc, t| acc.saturating_mul(t.len()).min(TIE_COMBO_CAP + 1));
     if combos > TIE_COMBO_CAP {
         return None;
     }
